@@ -7,7 +7,7 @@
   ctxsim <main 0|1> <fl0> <O_NONBLOCK> <sig0 d|i|u<k>> <wake0 N|<fd>> <token>*
     tokens: (I<sigint_event><disable_start_stop>  (F<hide>  (C<hide><keep>  (B  (N  (M<k>  )   context enter / leave
             q0 q1 q2 q3 (request: returnsNoRead, returnsAfterRead, raisesAfterRead, keyboardInterrupt)
-            r (render)  t (event trigger)  T (threadsafe trigger)  ! (raise)
+            r (render)  R<k> (render whose (k+1)-th write raises)  t (event trigger)  T (threadsafe trigger)  ! (raise)
             et<k> ef<bit> es<handler>  (the environment changes tty attributes / status flags / SIGINT handler)
   reply: one snapshot per enter/operation/exit, then "| raised=<0|1>"
 -/
@@ -52,6 +52,7 @@ def decOp (tok : String) : Option Op :=
   else if tok == "q2" then some (.request .raisesAfterRead) else if tok == "q3" then some (.request .keyboardInterrupt)
   else if tok == "r" then some .render else if tok == "t" then some .mkTrigger
   else if tok == "T" then some .mkThreadsafeTrigger
+  else if tok.startsWith "R" then (tok.drop 1).toString.toNat?.map Op.renderCrash
   else if tok.startsWith "et" then (tok.drop 2).toString.toNat?.map Op.envTty
   else if tok.startsWith "ef" then (tok.drop 2).toString.toNat?.map Op.envFl
   else if tok.startsWith "es" then (decHandler (tok.drop 2).toString).map Op.envSigint
